@@ -63,10 +63,12 @@ class Gen:
 
 LEAVES = ["fall", "break", "continue", "ret", "raiseE1", "raiseE2", "raisefrom", "reraise", "assert"]
 CONSTRUCTS = ["if", "ifelse", "for", "forelse", "while", "whileelse", "tryexc", "tryfin", "tryfull", "tryany",
-              "with1", "with1s", "with2", "with2s", "with1e", "with1b", "with1bs", "with2b", "with2bs", "with1a"]
+              "with1", "with1s", "with2", "with2s", "with1e", "with1b", "with1bs", "with2b", "with2bs", "with1a",
+              "tryexcT", "tryexcR", "with1x", "with1xs", "with2x"]
 SLOTS = {"if": 1, "ifelse": 2, "for": 1, "forelse": 2, "while": 1, "whileelse": 2, "tryexc": 2, "tryfin": 2,
          "tryfull": 4, "tryany": 2, "with1": 1, "with1s": 1, "with2": 1, "with2s": 1, "with1e": 1,
-         "with1b": 1, "with1bs": 1, "with2b": 1, "with2bs": 1, "with1a": 1}
+         "with1b": 1, "with1bs": 1, "with2b": 1, "with2bs": 1, "with1a": 1,
+         "tryexcT": 3, "tryexcR": 3, "with1x": 1, "with1xs": 1, "with2x": 1}
 
 
 def build(g, construct, blocks):
@@ -103,6 +105,18 @@ def build(g, construct, blocks):
         return ("with", [(next(g.m), None, False), (next(g.m), None, False)], b[0])
     if construct == "with2s":
         return ("with", [(next(g.m), None, False), (next(g.m), None, True)], b[0])
+    # except clauses whose type expression carries a tracer (TX) or raises (RX raises E2): evaluated lazily, clause by clause
+    if construct == "tryexcT":
+        return ("try", b[0], [([11], b[1], ("tick", n())), ([12, 10], b[2], ("tick", n()))], [], [])
+    if construct == "tryexcR":
+        return ("try", b[0], [([12], b[1], ("tick", n())), ([10], [g.T()], ("raises", n(), 12)), ([10], b[2])], [], [g.T()])
+    # managers whose __exit__ raises E2 whatever it is called with
+    if construct == "with1x":
+        return ("with", [(next(g.m), None, False, None, 12)], b[0])
+    if construct == "with1xs":
+        return ("with", [(next(g.m), None, True, None, 12)], b[0])
+    if construct == "with2x":
+        return ("with", [(next(g.m), None, True), (next(g.m), None, False, None, 12)], b[0])
     # `as` targets: "ok" binds a name, "fail" is `as (a, b)` of a manager whose __enter__() is not iterable (TypeError)
     if construct == "with1a":
         return ("with", [(next(g.m), None, False, "ok")], b[0])
@@ -207,13 +221,19 @@ def to_src(block, ind=1):
         elif s[0] == "try":
             out.append(pad + "try:")
             out += to_src(s[1], ind + 1)
-            for cls, hb in s[2]:
+            for h in s[2]:
+                cls, hb, pre = h[0], h[1], (h[2] if len(h) > 2 else None)
                 if cls is None:
-                    out.append(pad + "except:")
+                    expr = None
                 elif len(cls) == 1:
-                    out.append(f"{pad}except {CLS[cls[0]]}:")
+                    expr = CLS[cls[0]]
                 else:
-                    out.append(f"{pad}except ({', '.join(CLS[c] for c in cls)}):")
+                    expr = f"({', '.join(CLS[c] for c in cls)})"
+                if pre and pre[0] == "tick":
+                    expr = f"TX({pre[1]}, {expr})"
+                elif pre and pre[0] == "raises":
+                    expr = f"RX({pre[1]})"
+                out.append(pad + ("except:" if expr is None else f"except {expr}:"))
                 out += to_src(hb, ind + 1)
             if s[3]:
                 out.append(pad + "else:")
@@ -223,7 +243,8 @@ def to_src(block, ind=1):
                 out += to_src(s[4], ind + 1)
         elif s[0] == "with":
             items = ", ".join(
-                f"CM({it[0]}, {CLS[it[1]] if it[1] is not None else None}, {it[2]})" +
+                (f"CMX({it[0]}, {CLS[it[4]]}, {it[2]})" if len(it) > 4 and it[4] is not None else
+                 f"CM({it[0]}, {CLS[it[1]] if it[1] is not None else None}, {it[2]})") +
                 ({"ok": f" as v{it[0]}", "fail": f" as (a{it[0]}, b{it[0]})"}.get(it[3], "") if len(it) > 3 else "")
                 for it in s[1])
             out.append(f"{pad}with {items}:")
@@ -245,11 +266,20 @@ def to_sx(block):
         elif s[0] in ("if", "while", "for"):
             out.append([s[0], s[1], to_sx(s[2]), to_sx(s[3])])
         elif s[0] == "try":
-            hs = [["any", to_sx(hb)] if cls is None else [list(cls), to_sx(hb)] for cls, hb in s[2]]
+            hs = []
+            for h in s[2]:
+                cls, hb, pre = h[0], h[1], (h[2] if len(h) > 2 else None)
+                if cls is None:
+                    hs.append(["any", to_sx(hb)])
+                elif pre:
+                    hs.append([list(cls), list(pre), to_sx(hb)])
+                else:
+                    hs.append([list(cls), to_sx(hb)])
             out.append(["try", to_sx(s[1]), hs, to_sx(s[3]), to_sx(s[4])])
         elif s[0] == "with":
             out.append(["with", [[it[0], "-" if it[1] is None else it[1], it[2]] +
-                                 ([102 if it[3] == "fail" else "-"] if len(it) > 3 else []) for it in s[1]], to_sx(s[2])])
+                                 ([102 if it[3] == "fail" else "-"] if len(it) > 3 else []) +
+                                 (["-" if it[4] is None else it[4]] if len(it) > 4 else []) for it in s[1]], to_sx(s[2])])
         else:
             out.append(list(s))
     return out
@@ -276,8 +306,10 @@ def features(block, acc=None, in_else=False):
         elif s[0] == "try":
             acc.add("try")
             features(s[1], acc, in_else)
-            for _, hb in s[2]:
-                features(hb, acc, in_else)
+            for h in s[2]:
+                features(h[1], acc, in_else)
+                if len(h) > 2:
+                    acc.add("except-expr-" + h[2][0])
             features(s[3], acc, in_else)
             features(s[4], acc, in_else)
         elif s[0] == "with":
@@ -290,6 +322,8 @@ def features(block, acc=None, in_else=False):
                 acc.add("with-bind-fails")
             if any(len(it) > 3 and it[3] == "ok" for it in s[1]):
                 acc.add("with-as")
+            if any(len(it) > 4 and it[4] is not None for it in s[1]):
+                acc.add("with-exit-raises")
             features(s[2], acc, in_else)
         elif s[0] == "raise" and (s[1] == 13 or s[2] == 13):
             acc.add("baseexception")
